@@ -53,7 +53,7 @@ class Hdr:
         uk = {"++v": "inc", "v++": "inc", "--v": "dec", "v--": "dec", "+=": "add", "-=": "sub"}[self.upd]
         uv = str(self.step) if self.upd in ("+=", "-=") else "-"
         cv = str(self.bound) if self.bound_is_const else "?"
-        return "k,%s,k,%s,%s,k,%s,%s" % (self.init, op, cv, uk, uv)
+        return "k,%s,k,%s,%s,k,%s,%s,%s" % (self.init, op, cv, uk, uv, "r" if self.iter_right else "l")
 
     def iter_no(self):
         """C expression: the iteration number (0-based) of the current value of var"""
@@ -764,24 +764,29 @@ def container_of(K, node, path):
 
 BAD_HEADERS = [
     # (text, ir code)  -- {v} is the iterator name
-    ("{v} = 0; {v} < 2; ++{v}", "n,-,i,lt,-,w,inc,-"),                   # not a declaration
-    ("float {v} = 0; {v} < 2; ++{v}", "t,0,k,lt,2,k,inc,-"),             # type
-    ("int {v} = 0, {v}2 = 0; {v} < 2; ++{v}", "m,-,i,lt,-,w,inc,-"),      # two iterators
-    ("int {v}; {v} < 2; ++{v}", "v,-,k,lt,2,k,inc,-"),                   # no initial value
-    ("int {v} = 0; ; ++{v}", "k,0,x,-,-,k,inc,-"),                        # no check
-    ("int {v} = 0; {v} + 2; ++{v}", "k,0,o,-,-,k,inc,-"),                 # not a comparison
-    ("int {v} = 0; {v} == 2; ++{v}", "k,0,o,-,-,k,inc,-"),
-    ("int {v} = 0; N < 2; ++{v}", "k,0,i,lt,-,k,inc,-"),                  # other variable compared
-    ("int {v} = 0; {v} < 2; ", "k,0,k,lt,2,x,-,-"),                       # no update
-    ("int {v} = 0; {v} < 2; {v} *= 2", "k,0,k,lt,2,o,-,-"),               # operator
-    ("int {v} = 0; {v} < 2; ++M", "k,0,k,lt,2,w,inc,-"),                   # other variable updated
-    ("int {v} = 0; {v} < 2; {v} = {v} + 1", "k,0,k,lt,2,o,-,-"),
-    ("int {v} = 10; {v} < 2; {v} += 3", "k,10,k,lt,2,k,add,3"),           # empty constant range
-    ("int {v} = 10; {v} > 11; {v} -= 3", "k,10,k,gt,11,k,sub,3"),
-    ("int {v} = 0; {v} < 2; {v} -= 5", "k,0,k,lt,2,k,sub,5"),             # runs away from the bound
-    ("int {v} = 4; {v} < 4; ++{v}", "k,4,k,lt,4,k,inc,-"),                # empty
-    ("int {v} = 0; {v} < 8; {v} += 0", "k,0,k,lt,8,k,add,0"),             # zero step (F60)
-    ("int {v} = 8; {v} > 0; {v} -= 0", "k,8,k,gt,0,k,sub,0"),
+    ("{v} = 0; {v} < 2; ++{v}", "n,-,i,lt,-,w,inc,-,-"),                   # not a declaration
+    ("float {v} = 0; {v} < 2; ++{v}", "t,0,k,lt,2,k,inc,-,l"),             # type
+    ("int {v} = 0, {v}2 = 0; {v} < 2; ++{v}", "m,-,i,lt,-,w,inc,-,-"),      # two iterators
+    ("int {v}; {v} < 2; ++{v}", "v,-,k,lt,2,k,inc,-,l"),                   # no initial value
+    ("int {v} = 0; ; ++{v}", "k,0,x,-,-,k,inc,-,-"),                        # no check
+    ("int {v} = 0; {v} + 2; ++{v}", "k,0,o,-,-,k,inc,-,-"),                 # not a comparison
+    ("int {v} = 0; {v} == 2; ++{v}", "k,0,o,-,-,k,inc,-,-"),
+    ("int {v} = 0; N < 2; ++{v}", "k,0,i,lt,-,k,inc,-,-"),                  # other variable compared
+    ("int {v} = 0; {v} < 2; ", "k,0,k,lt,2,x,-,-,l"),                       # no update
+    ("int {v} = 0; {v} < 2; {v} *= 2", "k,0,k,lt,2,o,-,-,l"),               # operator
+    ("int {v} = 0; {v} < 2; ++M", "k,0,k,lt,2,w,inc,-,l"),                   # other variable updated
+    ("int {v} = 0; {v} < 2; {v} = {v} + 1", "k,0,k,lt,2,o,-,-,l"),
+    ("int {v} = 10; {v} < 2; {v} += 3", "k,10,k,lt,2,k,add,3,l"),           # empty constant range
+    ("int {v} = 10; {v} > 11; {v} -= 3", "k,10,k,gt,11,k,sub,3,l"),
+    ("int {v} = 0; {v} < 2; {v} -= 5", "k,0,k,lt,2,k,sub,5,l"),             # runs away from the bound
+    ("int {v} = 4; {v} < 4; ++{v}", "k,4,k,lt,4,k,inc,-,l"),                # empty
+    ("int {v} = 0; {v} < 8; {v} += 0", "k,0,k,lt,8,k,add,0,l"),             # zero step (F60)
+    ("int {v} = 8; {v} > 0; {v} -= 0", "k,8,k,gt,0,k,sub,0,l"),
+    ("int {v} = 0; {v} > N; ++{v}", "k,0,k,gt,?,k,inc,-,l"),               # update moves away from the bound (F70)
+    ("int {v} = 0; N < {v}; ++{v}", "k,0,k,lt,?,k,inc,-,r"),
+    ("int {v} = 0; {v} < N; --{v}", "k,0,k,lt,?,k,dec,-,l"),
+    ("int {v} = 0; {v} <= N; {v} -= 2", "k,0,k,le,?,k,sub,2,l"),
+    ("int {v} = 0; {v} > 10; ++{v}", "k,0,k,gt,10,k,inc,-,l"),
 ]
 
 
@@ -966,7 +971,8 @@ def m_bad_header(K, r, idx=None):
 
 
 def m_zero_step(K, r):
-    return m_bad_header(K, r, r.choice([len(BAD_HEADERS) - 2, len(BAD_HEADERS) - 1])) and "zero-step-header"
+    zs = [i for i, (t, c) in enumerate(BAD_HEADERS) if "= 0" in t and ("+= 0" in t or "-= 0" in t)]
+    return m_bad_header(K, r, r.choice(zs)) and "zero-step-header"
 
 
 def m_shared_outside(K, r):
